@@ -53,6 +53,10 @@ def rand_use(rng):
     u, t = rng.sample(CODES, 2)
     a = rat(Fraction(rng.randint(1, 10 ** 6), 100))
     b = rat(Fraction(rng.randint(1, 10 ** 6), 100))
+    if rng.random() < .15:
+        a = "0"          # the most recent converter answers 0: still an answer
+    if rng.random() < .1:
+        b = "0"
     mode = rng.choice(MODES)
     k = rng.random()
     if k < .4:
